@@ -1,12 +1,20 @@
 """Adapters to the real implementation: only the public rtamt API is used."""
 import logging
+import os
 import sys
 import io
 import contextlib
 
 logging.disable(logging.CRITICAL)
 
+# the registered commands monitor /repo's working tree (editable install); VERIF_REPO lets a background sweep run against a
+# snapshot of the repository instead
+REPO = os.environ.get('VERIF_REPO') or '/repo'
+if REPO != '/repo':
+    sys.path.insert(0, REPO)
+
 import rtamt  # noqa: E402  (the editable install resolves to /repo's working tree)
+assert os.path.realpath(rtamt.__file__).startswith(os.path.realpath(REPO) + os.sep), (rtamt.__file__, REPO)
 from rtamt import RTAMTException, Semantics  # noqa: E402
 
 KINDS = ('dt_off', 'dt_on', 'ct_off', 'ct_on')
